@@ -120,6 +120,9 @@ def jobs(tier, seed=0):
     # histories: the same title is run twice with different options (longer horizon first), so that every table of the
     # second run is written over one that already exists
     res.append(dict(cc="USA", preset="nw_large_animal_350kg", options=copy.deepcopy(V["nw_large_animal_350kg"])))
+    # every documented shut-off schedule appears at least once whatever the seed
+    for cc, name in (("ARG", "nw_shutoff_one_month_delayed_shutoff"), ("EST", "nw_shutoff_short_delayed_shutoff"), ("ZAF", "nw_shutoff_immediate")):
+        res.append(dict(cc=cc, preset=name, options=copy.deepcopy(V[name])))
     # an explicit threshold together with a shut-off schedule that carries its own default threshold
     res.append(dict(cc="ECU", preset="ms_worst_T60", options=dict(copy.deepcopy(P["ms_worst"]), MINIMUM_PERCENT_FED_BEFORE_NONHUMAN_CONSUMPTION_ALLOWED=60)))
     # ... and a run that follows, in the same process, a run of the same country, strategy and horizon with other grass and crops
